@@ -63,14 +63,14 @@ func execScopeRule(r *Run, rule string) {
 					}
 					break
 				}
-				v = crossNorm(v)
+				v = crossNormIn(v, fn)
 				for i := 0; i < 4; i++ {
 					switch y := v.(type) {
 					case *ssa.MakeInterface:
-						v = crossNorm(y.X)
+						v = crossNormIn(y.X, fn)
 						continue
 					case *ssa.ChangeInterface:
-						v = crossNorm(y.X)
+						v = crossNormIn(y.X, fn)
 						continue
 					}
 					break
